@@ -59,7 +59,7 @@ class Env:
                        ("Symbols", "sym")):
             for n in consts[k]:
                 self.kind[n] = cls
-        self.defname = sorted(consts["Names"])[0] if consts["Names"] else "a"
+        self.defname = consts.get("Name0", "a")
         for n in sorted(self.kind):
             self._set(n, self._construct(n))
         self.hidden_sym = g.Symbol(name="hidden", uuid=uuidlib.uuid5(NS, "hidden-symbol"))
@@ -114,7 +114,7 @@ class Env:
         if k == "prx":
             return g.ProxyBlock(uuid=u, **kw)
         if k == "sym":
-            return g.Symbol(name=self.defname, uuid=u, **kw)
+            return g.Symbol(name=self.to_name(self.defname), uuid=u, **kw)
         raise KeyError(k)
 
     def nid(self, o):
